@@ -15,6 +15,9 @@ def gen_case(rng, k):
     if k % 2 == 1:
         # interfaces that name interfaces declared further down in the same file
         gen.add_forward_refs(rng, fs, prob=0.8)
+    if k % 3 != 0:
+        # structs declared before the structs they contain
+        gen.reorder_structs(rng, fs)
     sibling = None
     if k % 2 == 0:
         cands = [f["path"] for f in fs["files"] if f["path"] != fs["main"]]
